@@ -568,15 +568,17 @@ impl TextResource {
     fn create_milestones(&mut self, interval: usize) {
         for (charpos, (bytepos, _)) in self.text.char_indices().enumerate() {
             if charpos > 0 && charpos % interval == 0 {
-                self.positionindex.0.insert(
-                    charpos,
-                    PositionIndexItem {
+                //never replace an existing entry: text selections may begin or end at this position already
+                //(this method runs again when a resource that already holds text selections is inserted into a store)
+                self.positionindex
+                    .0
+                    .entry(charpos)
+                    .or_insert_with(|| PositionIndexItem {
                         bytepos,
                         end2begin: smallvec!(),
                         begin2end: smallvec!(),
-                    },
-                );
-                self.byte2charmap.insert(bytepos, charpos);
+                    });
+                self.byte2charmap.entry(bytepos).or_insert(charpos);
             }
         }
     }
